@@ -796,6 +796,222 @@ fn regression_cases() -> Vec<Case> {
     v
 }
 
+// ---------------------------------------------------------------------------
+// two wrapper instances over one backend: conditional writes are decided against the commit point
+// ---------------------------------------------------------------------------
+
+#[derive(Clone, Debug, Serialize, Deserialize)]
+pub enum IMode {
+    Overwrite,
+    Create,
+    /// token drawn from every token a put ever returned (u16::MAX = the most recent one)
+    Update(u16),
+}
+
+#[derive(Clone, Debug, Serialize, Deserialize)]
+pub enum IOp {
+    Put { second: bool, key: u8, content: u8, size: u8, mode: IMode },
+    Delete { second: bool, key: u8 },
+    Copy { second: bool, from: u8, to: u8, create: bool },
+    Rename { second: bool, from: u8, to: u8, create: bool },
+    Read { second: bool, key: u8, head: bool },
+}
+
+#[derive(Clone, Debug, Serialize, Deserialize)]
+pub struct ICase {
+    pub kind: Kind,
+    pub chunk: u64,
+    pub ops: Vec<IOp>,
+}
+
+const IKEYS: u8 = 4;
+
+fn iop_strategy() -> impl Strategy<Value = IOp> {
+    let key = 0u8..IKEYS;
+    let mode = prop_oneof![
+        3 => Just(IMode::Overwrite),
+        4 => Just(IMode::Create),
+        2 => Just(IMode::Update(u16::MAX)),
+        2 => any::<u16>().prop_map(IMode::Update),
+    ];
+    prop_oneof![
+        8 => (any::<bool>(), key.clone(), 0u8..3, 0u8..10, mode).prop_map(|(second, key, content, size, mode)| IOp::Put { second, key, content, size, mode }),
+        4 => (any::<bool>(), key.clone()).prop_map(|(second, key)| IOp::Delete { second, key }),
+        2 => (any::<bool>(), key.clone(), 1u8..IKEYS, any::<bool>()).prop_map(|(second, from, d, create)| IOp::Copy { second, from, to: (from + d) % IKEYS, create }),
+        2 => (any::<bool>(), key.clone(), 1u8..IKEYS, any::<bool>()).prop_map(|(second, from, d, create)| IOp::Rename { second, from, to: (from + d) % IKEYS, create }),
+        4 => (any::<bool>(), key.clone(), any::<bool>()).prop_map(|(second, key, head)| IOp::Read { second, key, head }),
+    ]
+}
+
+pub fn icase_strategy() -> impl Strategy<Value = ICase> {
+    (prop_oneof![Just(Kind::Meta), Just(Kind::Enc)], prop::sample::select(&[1u64, 7, 16][..]), prop::collection::vec(iop_strategy(), 3..28)).prop_map(|(kind, chunk, ops)| ICase { kind, chunk, ops })
+}
+
+/// What an instance's metadata cache can hold for a key, as far as the harness can know.
+#[derive(Clone, Copy, PartialEq, Debug)]
+enum View {
+    NotCached,
+    /// not older than the key's latest commit
+    Fresh,
+    /// the key was committed through the OTHER instance after this one had touched it
+    Stale,
+}
+
+pub fn run_instances_case(case: &ICase, ctx: &mut CaseCtx) -> Result<(), String> {
+    install_clock(1_700_000_000_000);
+    vf_core::block_on(async {
+        let backend = Backend::new();
+        let wrappers = [Wrapper::build(case.kind, case.chunk, backend.store.clone()), Wrapper::build(case.kind, case.chunk, backend.store.clone())];
+        let stores = [wrappers[0].store(), wrappers[1].store()];
+        let refr: Arc<dyn ObjectStore> = Arc::new(InMemory::new());
+        // aligned token tables: entry i is the token the reference / the wrapper returned for the same put
+        let mut rtoks: Vec<String> = vec![];
+        let mut wtoks: Vec<String> = vec![];
+        let mut view = [[View::NotCached; IKEYS as usize]; 2];
+        let mut conditional_on_stale = 0u64;
+        ctx.label(format!("kind:{}", case.kind.name()));
+        for (i, op) in case.ops.iter().enumerate() {
+            let second = match op {
+                IOp::Put { second, .. } | IOp::Delete { second, .. } | IOp::Read { second, .. } => *second,
+                // a copy / rename reads its source through the instance's cache: it is issued through an
+                // instance whose view of the SOURCE is not stale (the view of the target may be)
+                IOp::Copy { second, from, .. } | IOp::Rename { second, from, .. } => {
+                    if view[*second as usize][*from as usize] == View::Stale {
+                        !*second
+                    } else {
+                        *second
+                    }
+                }
+            };
+            let me = second as usize;
+            let other = 1 - me;
+            let sop = match op {
+                IOp::Put { key, content, size, mode, .. } => SOp::Put {
+                    key: *key,
+                    content: *content,
+                    size: *size,
+                    mode: match mode {
+                        IMode::Overwrite => Mode::Overwrite,
+                        IMode::Create => Mode::Create,
+                        IMode::Update(t) => Mode::Update(*t),
+                    },
+                },
+                IOp::Delete { key, .. } => SOp::Delete { key: *key },
+                IOp::Copy { from, to, create, .. } => SOp::Copy { from: *from, to: *to, create: *create },
+                IOp::Rename { from, to, create, .. } => SOp::Rename { from: *from, to: *to, create: *create },
+                IOp::Read { key, head, .. } => SOp::Get { key: *key, range: RangeSel::None, if_match: Cond::None, if_none_match: Cond::None, modified: DateSel::None, unmodified: DateSel::None, head: *head },
+            };
+            let (target, source): (u8, Option<u8>) = match op {
+                IOp::Put { key, .. } | IOp::Delete { key, .. } | IOp::Read { key, .. } => (*key, None),
+                IOp::Copy { from, to, .. } | IOp::Rename { from, to, .. } => (*to, Some(*from)),
+            };
+            let target_stale = view[me][target as usize] == View::Stale;
+            let conditional = matches!(op, IOp::Put { mode: IMode::Create | IMode::Update(_), .. } | IOp::Copy { create: true, .. } | IOp::Rename { create: true, .. });
+            let r = apply(&sop, &Side { store: refr.clone(), tokens: rtoks.clone() }, case.chunk).await;
+            let x = apply(&sop, &Side { store: stores[me].clone(), tokens: wtoks.clone() }, case.chunk).await;
+            let what = format!("op {i} {op:?} (through instance {}; its view of the target key: {:?})", if second { "B" } else { "A" }, view[me][target as usize]);
+            let committed = match op {
+                IOp::Read { .. } => {
+                    if target_stale {
+                        // a read through a lagging cache may answer from the previous commit until it
+                        // re-resolves: not compared
+                        ctx.count("reads_through_a_stale_view_not_compared", 1);
+                    } else {
+                        match (&r, &x) {
+                            (Out::Get { meta: ma, bytes: ba, .. }, Out::Get { meta: mb, bytes: bb, .. }) => {
+                                // (a head request carries no content - documented normalisation)
+                                let head = matches!(op, IOp::Read { head: true, .. });
+                                if ma.size != mb.size || (!head && ba != bb) {
+                                    return Err(format!("{what}: size {} / {} bytes, the reference has size {} / {} bytes", mb.size, bb.len(), ma.size, ba.len()));
+                                }
+                            }
+                            (Out::Err(a), Out::Err(b)) if a == b => {}
+                            _ => return Err(format!("{what}: {x:?}, the reference answers {r:?}")),
+                        }
+                        if view[me][target as usize] == View::NotCached {
+                            view[me][target as usize] = View::Fresh;
+                        }
+                    }
+                    false
+                }
+                IOp::Delete { .. } => match (&r, &x) {
+                    (Out::Unit, Out::Unit) => true,
+                    (Out::Unit, Out::Err(EK::NotFound)) => true,
+                    (Out::Err(a), Out::Err(b)) if a == b => false,
+                    _ if target_stale => {
+                        ctx.count("deletes_through_a_stale_view_not_compared", 1);
+                        matches!(r, Out::Unit)
+                    }
+                    _ => return Err(format!("{what}: {x:?}, the reference answers {r:?}")),
+                },
+                _ => match (&r, &x) {
+                    (Out::Put { tag: Some(a) }, Out::Put { tag: Some(b) }) => {
+                        if wtoks.contains(b) {
+                            return Err(format!("{what}: token {b} was already the token of an earlier commit"));
+                        }
+                        rtoks.push(a.clone());
+                        wtoks.push(b.clone());
+                        true
+                    }
+                    (Out::Unit, Out::Unit) => true,
+                    (Out::Err(a), Out::Err(b)) if a == b => false,
+                    _ => {
+                        return Err(format!(
+                            "{what}: {x:?}, the reference answers {r:?} - a conditional write must be decided against the key's latest commit, whichever instance made it"
+                        ))
+                    }
+                },
+            };
+            if conditional && target_stale {
+                conditional_on_stale += 1;
+                ctx.count(if committed { "conditional_writes_through_a_stale_view_that_succeeded" } else { "conditional_writes_through_a_stale_view_that_were_refused" }, 1);
+            }
+            if let Some(sk) = source {
+                if view[me][sk as usize] == View::NotCached {
+                    view[me][sk as usize] = View::Fresh;
+                }
+            }
+            if committed {
+                let mut touched = vec![target];
+                if let (IOp::Rename { .. }, Some(sk)) = (op, source) {
+                    touched.push(sk);
+                }
+                for k in touched {
+                    view[me][k as usize] = View::Fresh;
+                    if view[other][k as usize] != View::NotCached {
+                        view[other][k as usize] = View::Stale;
+                    }
+                }
+            }
+        }
+        // end of the sequence: a cold instance reads what the reference holds
+        let cold = Wrapper::build(case.kind, case.chunk, backend.store.clone());
+        let cs = cold.store();
+        for k in 0..IKEYS {
+            let p = key_path(k);
+            let a = match refr.get(&p).await {
+                Ok(g) => Some(g.bytes().await.map_err(|e| e.to_string())?.to_vec()),
+                Err(_) => None,
+            };
+            let b = match cs.get(&p).await {
+                Ok(g) => Some(g.bytes().await.map_err(|e| format!("cold read of key {k}: {e}"))?.to_vec()),
+                Err(object_store::Error::NotFound { .. }) => None,
+                Err(e) => return Err(format!("end of sequence: a cold instance cannot read key {k}: {e}")),
+            };
+            if a != b {
+                return Err(format!(
+                    "end of sequence: a cold instance reads {:?} bytes for key {k}, the reference holds {:?}",
+                    b.as_ref().map(|v| v.len()),
+                    a.as_ref().map(|v| v.len())
+                ));
+            }
+        }
+        ctx.count("conditional_writes_through_a_stale_view", conditional_on_stale);
+        ctx.nontrivial = conditional_on_stale > 0;
+        Ok(())
+    })
+}
+
 pub fn run(r: &mut Runner) {
     r.assume("object_store::memory::InMemory is the reference object store");
     r.assume("documented deviations are normalised: version always None; invalid requests compared as 'is an error'; delete(missing) may answer NotFound; self-rename preserves the object; head requests carry no content");
@@ -843,6 +1059,13 @@ pub fn run(r: &mut Runner) {
                 Err((choices, e)) => Err(format!("{e} [choices {choices:?}]")),
             }
         },
+    );
+    r.sub(
+        "two_instances_conditional_writes",
+        "generated call sequences (3-27 calls over 4 nested keys; put in Overwrite / Create / Update mode with tokens drawn from every token a put returned, delete, copy / rename in both target modes, reads that warm the caches) routed call by call to one of TWO long-lived wrapper instances over one backend (sequentially: the documented single-writer contract is respected), and to InMemory. Oracle: every put / copy / rename - in particular every conditional one issued through an instance whose cached view of the target key lags behind a commit made through the other instance - succeeds or is refused exactly as the reference decides (the commit protocol documents that preconditions are checked against the committed truth, not the cache); tokens never repeat; reads through a view that is not stale equal the reference; at the end a cold instance reads exactly what the reference holds. Reads and deletes through a stale view are executed but not compared. Non-trivial = a conditional write went through a stale view",
+        (8_000, 300_000),
+        icase_strategy,
+        run_instances_case,
     );
     r.sub(
         "differential_64k",
